@@ -137,11 +137,15 @@ class DumpMixin(AbstractDumper, BaseDumpHook):
 
     @staticmethod
     def dump_with_datetime(o: datetime, *_):
-        return o.isoformat().replace('+00:00', 'Z', 1)
+        s = o.isoformat()
+        # Only a *trailing* UTC offset is written as "Z": an offset with a
+        # seconds part, like "+00:00:30", must be kept as is.
+        return s[:-6] + 'Z' if s.endswith('+00:00') else s
 
     @staticmethod
     def dump_with_time(o: time, *_):
-        return o.isoformat().replace('+00:00', 'Z', 1)
+        s = o.isoformat()
+        return s[:-6] + 'Z' if s.endswith('+00:00') else s
 
     @staticmethod
     def dump_with_date(o: date, *_):
